@@ -696,4 +696,8 @@ def run(model, R):
     R.guard('CONFLICTS', None, 'conflicting_pairs', conflicting, model, R)
     R.guard('EQ-COMPLETE', None, 'equality', equality, model, R)
     R.guard('AGREEMENT', None, 'agreement', agreement, model, R)
+    from .common import flag_clobber
+    flag_clobber(R, model.func('definitions.TransformableMixin.take'), ['reorder'])
+    for nm in ('union', 'intersection'):
+        flag_clobber(R, model.func(f'definitions.MutableMixin.{nm}'), ['ignore_conflicts'])
     return __doc__.strip()
